@@ -173,6 +173,9 @@ type Packet struct {
 func (p Packet) String() string {
 	switch p.Type {
 	case PUBLISH:
+		if len(p.Payload) > 64 {
+			return fmt.Sprintf("PUBLISH{%q=%q…(%d bytes) q%d id%d r%v d%v}", p.Topic, p.Payload[:48], len(p.Payload), p.QoS, p.ID, p.Retain, p.Dup)
+		}
 		return fmt.Sprintf("PUBLISH{%q=%q q%d id%d r%v d%v}", p.Topic, p.Payload, p.QoS, p.ID, p.Retain, p.Dup)
 	case CONNACK:
 		return fmt.Sprintf("CONNACK{%d}", p.Code)
